@@ -90,6 +90,13 @@ class ListObj(SyncObj):
         raise KeyError('boom0')
 
     @replicated
+    def boom2(self, sid, extra):
+        # raising method with two positional arguments
+        pos = self.raftLastApplied + 1
+        OBS.append(('apply-raise', pos, sid))
+        raise ValueError('boom2 %r %r' % (sid, extra))
+
+    @replicated
     def boomx(self, sid):
         # application-defined exception class
         pos = self.raftLastApplied + 1
@@ -1365,7 +1372,8 @@ class ClusterModel(object):
                 return None
             if ev[2].endswith('0'):
                 return self.node_step(w, ev[1], ('call0', ('z', w.nsub), ev[2]), budget=bud, nsub=w.nsub + 1, label=ev)
-            return self.node_step(w, ev[1], ('put', w.nsub, ev[2], (), ()), budget=bud, nsub=w.nsub + 1, label=ev)
+            extra = (7,) if ev[2].endswith('2') else ()
+            return self.node_step(w, ev[1], ('put', w.nsub, ev[2], extra, ()), budget=bud, nsub=w.nsub + 1, label=ev)
         if kind == 'BO':   # battery operation number ev[2] of the configured consumer set
             bud = self.spend(w, 'S') if ev[-1] != 'free' else w.budget
             if bud is None:
